@@ -298,4 +298,192 @@ theorem stepX_gap_timeout {cfg : Cfg} {n : Net} {v : View} (h : RInv cfg n v) (h
   · rw [adr_x, adr_y v h.x2]
   · unfold View.nextTx View.sendX; rfl
 
+/-- Phase `hold`, the supervising other station is polled: a no-op (its slot time cannot have expired, the
+holder's transmission is due earlier). -/
+theorem stepY_hold {cfg : Cfg} {n : Net} {v : View} (h : RInv cfg n v) (hok : cfg.Ok) (p1 : Int)
+    (hph : v.ph = .hold p1) (now : Int) (e : EvOk cfg n v (oth v.x) now) : StepOut cfg n v (oth v.x) now := by
+  have hP := h.ph
+  unfold PhaseOk at hP
+  rw [hph] at hP
+  obtain ⟨hs1, hb, hxst, hlx, hsy, hyl, hypb, hyrx, hid, hly, htb, hp1, hsx, hA⟩ := hP
+  have hown := e.own
+  have htl := e.tl
+  have hgapx := e.gapX
+  have htlx := h.tlx
+  have hd := h.bus.deliver_own hok.rate (oth v.x) (oth_lt _) now hs1
+  have hlen : v.tr.bytes.length = 3 := by rw [hb]; rfl
+  have hc2 := cfg.ce2 hok.rate
+  have hphy : n.bus.transmitting (oth v.x) now = false := by
+    rw [Bus.transmitting_last n.bus (oth v.x) now v.old v.tr h.bus.txs hs1, h.bus.txEnd_eq, hlen]
+    simp only [decide_eq_false_iff_not]
+    show ¬ now < _ + ((cfg.ce 2 : Nat) : Int)
+    omega
+  have hpoll : ∃ c', v.sy.s.poll [] now false [] = .ok c' ∧ c'.tx = none ∧ c'.s = v.sy.s ∧
+      c'.apps = [] ∧ c'.rx = [] := by
+    by_cases hle : now ≤ v.tr.start + (cfg.b33 : Nat)
+    · exact ⟨_, poll_ongoing v.sy.s [] now _ [] h.oky.son (by rw [hsy]; simp) (by rw [hsy]; simp) _ hyl hle,
+        rfl, rfl, rfl, rfl⟩
+    · obtain ⟨c', hc', htx', hs', ha', hr'⟩ := check_poll_partial v.sy.s now [] .first _ h.oky.inv h.oky.son hsy hyl (by omega)
+        (.inr (by rw [h.oky.slot]; omega)) receiveAll_nil
+      simp only [List.length_nil, checkBus_nil] at hs'
+      exact ⟨c', hc', htx', hs', ha', hr'⟩
+  obtain ⟨c', hc', htx', hs', ha', hr'⟩ := hpoll
+  obtain ⟨n', hn', hinv'⟩ := rinv_quiet_y h now e.tl (Int.le_of_lt e.own) [] c' v.idle v.ly hd
+    (by rw [hphy, hyrx]; exact hc') htx' (by rw [hs']) (by rw [hs']) (by rw [hs']; exact h.oky.son)
+    (by
+      unfold PhaseOk View.setY upSt
+      simp only [hph, hs', hr']
+      exact ⟨hs1, hb, hxst, hlx, hsy, hyl, hypb, trivial, hid, hly, htb, hp1, hsx, hA⟩)
+  exact ⟨n', _, [], _, hn', hinv', rfl, fun j _ => rfl, .inl ⟨htx', rfl, rfl⟩⟩
+
+/-- Phase `gap`, the other station has heard the request already and is polled again: a no-op (its
+token-lost time-out is far away). -/
+theorem stepY_gap_idle {cfg : Cfg} {n : Net} {v : View} (h : RInv cfg n v) (hok : cfg.Ok) (g : Nat)
+    (hph : v.ph = .gap g) (hidle : v.idle = true) (now : Int) (e : EvOk cfg n v (oth v.x) now) :
+    StepOut cfg n v (oth v.x) now := by
+  have hP := h.ph
+  unfold PhaseOk at hP
+  rw [hph] at hP
+  obtain ⟨hs1, hb, hgy, hg, hst, hlx, hq, hsx, hY⟩ := hP
+  rw [hidle] at hY
+  simp only [if_true] at hY
+  obtain ⟨⟨np, coll, hyst⟩, hyrx, hypb, hyl, hly1, hly2⟩ := hY
+  have hown := e.own
+  have htl := e.tl
+  have hgapx := e.gapX
+  have hne := oth_ne v.x h.x2
+  have hlen : v.tr.bytes.length = 6 := by rw [hb]; exact statusRequestBytes_length _ _
+  have hc5 := cfg.ce5 hok.rate
+  have htto := h.oky.tto
+  have hd := h.bus.deliver_done hok.rate (oth v.x) (oth_lt _) now (by rw [hs1]; exact hne) (Int.le_of_lt e.own)
+    (by rw [hlen]; decide) (by rw [hlen]; show _ + ((cfg.ce 5 : Nat) : Int) ≤ _; omega)
+  have hphy : n.bus.transmitting (oth v.x) now = false :=
+    Bus.transmitting_old n.bus (oth v.x) now v.old v.tr h.bus.txs (by rw [hs1]; exact hne) h.bus.oldEnd
+      (Int.le_trans h.tlt e.tl)
+  have hp := idle_poll_partial v.sy.s now [] [] false np coll v.ly h.oky.son hyst hyl (by omega) (by omega)
+    (.inr (by omega)) receiveAll_nil
+  simp only [List.length_nil, checkBus_nil] at hp
+  obtain ⟨n', hn', hinv'⟩ := rinv_quiet_y h now e.tl (Int.le_of_lt e.own) [] { s := v.sy.s, apps := [], rx := [] } true v.ly hd
+    (by rw [hphy, hyrx]; exact hp) rfl rfl rfl h.oky.son
+    (by
+      unfold PhaseOk View.setY upSt
+      simp only [hph, if_true]
+      exact ⟨hs1, hb, hgy, hg, hst, hlx, hq, hsx, ⟨np, coll, hyst⟩, trivial, hypb, hyl, hly1, by omega⟩)
+  exact ⟨n', _, [], _, hn', hinv', rfl, fun j _ => rfl, .inl ⟨rfl, rfl, rfl⟩⟩
+
+/-- The other station, receiving `tr` piece by piece, is polled while `tr` is still incomplete for it: it
+registers the new characters (stamp := poll time) or, if none is new, finds its deadline not reached;
+nothing else happens. -/
+theorem yrecv_partial {cfg : Cfg} {n : Net} {v : View} (h : RInv cfg n v) (hok : cfg.Ok)
+    (hs1 : v.tr.sender = v.x) (hY : YRecv cfg v (n.bus.seen.getD (oth v.x) 0))
+    (hpre : ∀ m, m < v.tr.bytes.length → receiveAll (v.tr.bytes.take m) = .done (v.tr.bytes.take m) [] false)
+    (now : Int) (e : EvOk cfg n v (oth v.x) now) (hpart : cvis cfg v.tr now < v.tr.bytes.length) :
+    ∃ inc c ly', n.bus.deliver (oth v.x) now = ({ n.bus with seen := n.bus.seen.set (oth v.x) now }, inc) ∧
+      v.sy.s.poll [] now (n.bus.transmitting (oth v.x) now) (v.sy.rx ++ inc) = .ok c ∧ c.tx = none ∧
+      c.s.p = v.sy.s.p ∧ c.s.ring = v.sy.s.ring ∧ c.s.online = true ∧ YRecv cfg (v.setY c v.idle ly' now) now := by
+  obtain ⟨hrx, hpb, hlt, hyl, hlc, hmode⟩ := hY
+  have hown := e.own
+  have htl := e.tl
+  have htlt := h.tlt
+  have hne := oth_ne v.x h.x2
+  have hmar := hok.margin
+  have htto := h.oky.tto
+  obtain ⟨inc, hd, hcat⟩ := h.bus.deliver_recv hok.rate (oth v.x) (oth_lt _) now (by rw [hs1]; exact hne) (Int.le_of_lt e.own)
+  have hphy : n.bus.transmitting (oth v.x) now = false :=
+    Bus.transmitting_old n.bus (oth v.x) now v.old v.tr h.bus.txs (by rw [hs1]; exact hne) h.bus.oldEnd
+      (Int.le_trans h.tlt e.tl)
+  have hmono := cvis_mono cfg v.tr _ now (Int.le_of_lt e.own)
+  have hlyn : v.ly < now := by rcases hlc with h1 | h1 <;> omega
+  have hlen' : (v.tr.bytes.take (cvis cfg v.tr now)).length = cvis cfg v.tr now := by
+    rw [List.length_take]; omega
+  have hrx' : v.sy.rx ++ inc = v.tr.bytes.take (cvis cfg v.tr now) := by rw [hrx]; exact hcat
+  -- if nothing is new, the next character is not yet complete
+  have hnonew : ¬ cvis cfg v.tr (n.bus.seen.getD (oth v.x) 0) < cvis cfg v.tr now →
+      now < v.tr.start + ((cfg.ce (cvis cfg v.tr (n.bus.seen.getD (oth v.x) 0)) : Nat) : Int) := by
+    intro hnn
+    have : ¬ (v.tr.start + ((cfg.ce (cvis cfg v.tr (n.bus.seen.getD (oth v.x) 0)) : Nat) : Int) ≤ now) :=
+      fun hc => hnn ((cvis_spec cfg v.tr now _ hlt).2 hc)
+    omega
+  -- deadline after registering a new character
+  have hnewdl : cvis cfg v.tr (n.bus.seen.getD (oth v.x) 0) < cvis cfg v.tr now →
+      v.tr.start + ((cfg.ce (cvis cfg v.tr now) : Nat) : Int) ≤ now + ((cfg.ce 0 : Nat) : Int) := by
+    intro hnew
+    have hk : cvis cfg v.tr now - 1 < v.tr.bytes.length := by omega
+    have h1 := (cvis_spec cfg v.tr now _ hk).1 (by omega)
+    have h2 := cfg.ce_step hok.rate (cvis cfg v.tr now - 1)
+    have e1 : cvis cfg v.tr now - 1 + 1 = cvis cfg v.tr now := by omega
+    rw [e1] at h2
+    omega
+  obtain ⟨ly', hly'⟩ : ∃ ly', ly' = (if cvis cfg v.tr (n.bus.seen.getD (oth v.x) 0) < cvis cfg v.tr now then now else v.ly) :=
+    ⟨_, rfl⟩
+  have hpbs : ∀ s' : Station, s' = checkBusActivity v.sy.s now (cvis cfg v.tr now) →
+      s'.pendingBytes = cvis cfg v.tr now ∧ s'.lastBusActivity = some ly' := by
+    intro s' hs'
+    subst hs'
+    rw [hly']
+    have hl := checkBA_last v.sy.s now (cvis cfg v.tr now) (by intro l' hl'; rw [hyl] at hl'; cases hl'; exact hlyn)
+    rw [hpb] at hl
+    constructor
+    · unfold checkBusActivity
+      rw [hpb]
+      split
+      · rfl
+      · rw [hpb]; omega
+    · rw [hl]
+      split
+      · rfl
+      · exact hyl
+  cases hi : v.idle with
+  | false =>
+    rw [hi] at hmode
+    simp only [Bool.false_eq_true, if_false] at hmode
+    obtain ⟨hst, hdl⟩ := hmode
+    obtain ⟨c', hc', htx', hs', ha', hr'⟩ := check_poll_partial v.sy.s now _ .first v.ly h.oky.inv h.oky.son hst hyl hlyn
+      (by
+        rw [hlen', hpb, h.oky.slot]
+        by_cases hnew : cvis cfg v.tr (n.bus.seen.getD (oth v.x) 0) < cvis cfg v.tr now
+        · exact .inl hnew
+        · right; have := hnonew hnew; omega)
+      (hpre _ hpart)
+    rw [hlen'] at hs'
+    obtain ⟨hp1, hp2⟩ := hpbs c'.s hs'
+    obtain ⟨f1, f2, f3, f4, -⟩ := checkBA_fields v.sy.s now (cvis cfg v.tr now)
+    refine ⟨inc, c', ly', hd, by rw [hphy, hrx']; exact hc', htx', by rw [hs']; exact f2, by rw [hs']; exact f3, by rw [hs', f4]; exact h.oky.son, ?_⟩
+    unfold YRecv View.setY upSt
+    simp only [Bool.false_eq_true, if_false]
+    refine ⟨hr', hp1, hpart, hp2, .inr ?_, by rw [hs', f1]; exact hst, ?_⟩
+    · rw [hly']; split <;> omega
+    · rw [hly']
+      by_cases hnew : cvis cfg v.tr (n.bus.seen.getD (oth v.x) 0) < cvis cfg v.tr now
+      · rw [if_pos hnew]; have := hnewdl hnew; omega
+      · rw [if_neg hnew]
+        have : cvis cfg v.tr now = cvis cfg v.tr (n.bus.seen.getD (oth v.x) 0) := by omega
+        rw [this]; exact hdl
+  | true =>
+    rw [hi] at hmode
+    simp only [if_true] at hmode
+    obtain ⟨⟨np, coll, hst⟩, hdl⟩ := hmode
+    have hp := idle_poll_partial v.sy.s now (v.tr.bytes.take (cvis cfg v.tr now)) _ false np coll v.ly h.oky.son hst hyl hlyn
+      (by omega)
+      (by
+        rw [hlen', hpb]
+        by_cases hnew : cvis cfg v.tr (n.bus.seen.getD (oth v.x) 0) < cvis cfg v.tr now
+        · exact .inl hnew
+        · right; have := hnonew hnew; omega)
+      (hpre _ hpart)
+    rw [hlen'] at hp
+    obtain ⟨hp1, hp2⟩ := hpbs _ rfl
+    obtain ⟨f1, f2, f3, f4, -⟩ := checkBA_fields v.sy.s now (cvis cfg v.tr now)
+    refine ⟨inc, _, ly', hd, by rw [hphy, hrx']; exact hp, rfl, f2, f3, by rw [f4]; exact h.oky.son, ?_⟩
+    unfold YRecv View.setY upSt
+    simp only [if_true]
+    refine ⟨trivial, hp1, hpart, hp2, .inr ?_, ⟨np, coll, by rw [f1]; exact hst⟩, ?_⟩
+    · rw [hly']; split <;> omega
+    · rw [f2, hly']
+      by_cases hnew : cvis cfg v.tr (n.bus.seen.getD (oth v.x) 0) < cvis cfg v.tr now
+      · rw [if_pos hnew]; have := hnewdl hnew; omega
+      · rw [if_neg hnew]
+        have : cvis cfg v.tr now = cvis cfg v.tr (n.bus.seen.getD (oth v.x) 0) := by omega
+        rw [this]; exact hdl
+
 end PV
